@@ -240,6 +240,7 @@ class Ctx:
                 self._template_vs_template(parts, f, key, g)
                 self._assoc(parts, f, key, g)
                 self._assoc(key, g, parts, f)
+                self._same_head(parts, f, key, g)
             for s, c in self.lits.items():
                 self._lit_vs_template(s, c, parts, f)
             self.templates[parts] = f
@@ -262,6 +263,16 @@ class Ctx:
             ys = [self.fresh_name("ty") for _ in range(len(b) - 1)]
             self.axioms.append(z3.ForAll(xs + ys, f(*xs) != g(*ys)))
             self.strfacts.append(("disj", a, b))
+
+    def _same_head(self, a, f, b, g):
+        """a0 == b0 and both start with the same hole value: the texts after it start with different characters, so the
+        results differ:  f"{h}.{x}" != f"{h}_{y}" """
+        if len(a) >= 2 and len(b) >= 2 and a[0] == b[0] and a[1] and b[1] and a[1][0] != b[1][0]:
+            h = self.fresh_name("sh")
+            xs = [self.fresh_name("sx") for _ in range(len(a) - 2)]
+            ys = [self.fresh_name("sy") for _ in range(len(b) - 2)]
+            self.axioms.append(z3.ForAll([h] + xs + ys, f(*([h] + xs)) != g(*([h] + ys))))
+            self.strfacts.append(("same-head", a, b))
 
     def _assoc(self, a, f, b, g):
         """a ends with a hole, b starts with one:  A(xs.., B(y, ys..)) == B(A(xs.., y), ys..)  (both are the text
